@@ -292,11 +292,33 @@ def r20_1(ctx):
     EDUP = prog.macro_value('ERROR_DUPLICATED_EXTERNAL_VARIABLE')
     bad = []
     dup_ret = [False]
-    ct = paths.CondTracker(g, extra=['object'])
+    ALLOC = ('yr_arena_', '_yr_compiler_store', 'yr_hash_table_add', 'yr_object_from_external')
+    # static helpers of the function that allocate (directly or through each other)
+    allocating = set()
+    fam = cu.family(prog, g)
+    changed = True
+    while changed:
+        changed = False
+        for h in fam[1:]:
+            if h.name not in allocating and any(
+                    (c.get('callee') or '').startswith(ALLOC) or c.get('callee') in allocating
+                    for c in h.calls()):
+                allocating.add(h.name)
+                changed = True
+    lookups = [c for c in g.calls() if (c.get('callee') or '').startswith('yr_hash_table_lookup')]
+    ctx.require(lookups or ctx.fixture, 'no table lookup in _yr_compiler_define_variable')
+    lk = lookups[0] if lookups else None
+    hold = paths.value_holder(g, lk) if lk is not None else ('dropped', None)
+    lvar = hold[1] if hold[0] == 'var' else None
+
+    def is_lookup_value(x):
+        x = cu.strip_casts(g, x)
+        while x is not None and x['k'] == 'paren':
+            x = cu.strip_casts(g, g.kid(x, 0))
+        return x is not None and (x is lk or (lvar is not None and x['k'] == 'ref' and x['name'] == lvar))
 
     def step(n, facts):
-        if n['k'] == 'call' and n.get('callee', '').startswith(('yr_arena_', '_yr_compiler_store',
-                                                                'yr_hash_table_add')):
+        if n['k'] == 'call' and ((n.get('callee') or '').startswith(ALLOC) or n.get('callee') in allocating):
             if 'unique' not in facts:
                 bad.append(n)
             return facts
@@ -310,9 +332,18 @@ def r20_1(ctx):
         pol = paths.branch_polarity(g, term, idx)
         if pol is None or cond is None:
             return facts
-        imp = ct.implied(cond, pol)
-        if imp is not None and imp[1] == 'object' and imp[2] == 0 and 'unique' not in facts and 'dup' not in facts:
-            return facts | ({'unique'} if imp[0] == 'eq' else {'dup'})
+        c, p2 = paths.normalise_cond(g, cond, pol)
+        while c is not None and c['k'] == 'paren':
+            c = cu.strip_casts(g, g.kid(c, 0))
+        isnull = None
+        if c is not None and c['k'] == 'bin' and c['op'] in ('==', '!='):
+            for x, y in ((g.kid(c, 0), g.kid(c, 1)), (g.kid(c, 1), g.kid(c, 0))):
+                if is_lookup_value(x) and cu.const_of(cu.strip_casts(g, y)) == 0:
+                    isnull = (c['op'] == '==') == p2
+        elif c is not None and is_lookup_value(c):
+            isnull = not p2
+        if isnull is not None and 'unique' not in facts and 'dup' not in facts:
+            return facts | ({'unique'} if isnull else {'dup'})
         return facts
     paths.explore(g, set(), step, edge, max_states=64)
     ctx.ob('R20.1', '_yr_compiler_define_variable:duplicate-check-first', not bad and dup_ret[0],
